@@ -33,7 +33,7 @@ PROBES = [
     "probe.read_spans_refill", "probe.chunk_inside_read", "probe.read_at_eof", "probe.multibyte_split",
     "probe.line_spans_chunk", "probe.bufwriter_overflow", "probe.big_write_bypass", "probe.kill_fired",
     "probe.kill_after_flush", "probe.append_existing", "probe.x_exists", "probe.a_missing", "probe.exit_unflushed",
-    "probe.readback", "probe.stdin_and_file",
+    "probe.readback", "probe.stdin_and_file", "probe.two_handles_one_file",
 ]
 
 HUGE = 1 << 40
@@ -66,7 +66,13 @@ def gen_read(rng, tier):
         kind = rng.weighted([(30, "reg"), (40, "pipe"), (0 if have_stdin else 30, "stdin")])
         if kind == "stdin":
             have_stdin = True
-        handles.append({"kind": kind, "content": _gen_content(rng)})
+        h = {"kind": kind, "content": _gen_content(rng)}
+        # sometimes a second, independent handle on the same file (own cursor, own BufReader)
+        prev = [j for j, x in enumerate(handles) if x["kind"] != "stdin" and "alias" not in x]
+        if kind != "stdin" and prev and rng.chance(25):
+            j = rng.choice(prev)
+            h = {"kind": handles[j]["kind"], "content": handles[j]["content"], "alias": j}
+        handles.append(h)
     datas = [content.expand(h["content"]) for h in handles]
     cursors = [0] * nh
     closed = [False] * nh  # no further ops generated (after a possibly-error op on binary data)
@@ -235,9 +241,12 @@ def render_read(model):
             plan["stdin"] = "p"
             lines.append("let h%d = stdin;" % i)
         else:
-            rel = "d/in%d" % i
-            files[rel] = data
-            paths.append([i, "p" if h["kind"] == "pipe" else "r", rel])
+            if "alias" in h:
+                rel = "d/in%d" % h["alias"]
+            else:
+                rel = "d/in%d" % i
+                files[rel] = data
+                paths.append([i, "p" if h["kind"] == "pipe" else "r", rel])
             lines.append('let h%d = open("%s");' % (i, rel))
             lines.append('if is_error(h%d) { eprintln("#%d E {}", h%d); } else { eprintln("#%d V {}", h%d); }' % (i, 1000 + i, i, 1000 + i, i))
     for k, op in enumerate(model["ops"]):
@@ -414,6 +423,8 @@ def check_read(model, res):
     kinds = set(h["kind"] for h in handles)
     if "stdin" in kinds and len(kinds) > 1:
         inc("probe.stdin_and_file")
+    if any("alias" in h for h in handles):
+        inc("probe.two_handles_one_file")
     nontrivial = False
     for k, op in enumerate(model["ops"]):
         h = op["h"]
@@ -716,7 +727,9 @@ def shrink(model):
     if len(m["handles"]) > 1:
         for i in range(len(m["handles"])):
             c = dict(m)
-            c["handles"] = [h for j, h in enumerate(m["handles"]) if j != i]
+            if any(h.get("alias") == i for h in m["handles"]):
+                continue   # another handle aliases this one's file
+            c["handles"] = [dict(h, alias=h["alias"] - 1) if h.get("alias", -1) > i else h for j, h in enumerate(m["handles"]) if j != i]
             c["ops"] = [dict(o, h=(o["h"] - 1 if o["h"] > i else o["h"])) for o in m["ops"] if o["h"] != i]
             if c["ops"] or m["pop"] == "write":
                 yield _fix(c)
@@ -733,13 +746,13 @@ def shrink(model):
         for i, h in enumerate(m["handles"]):
             if h["kind"] != "reg" and not any(x["kind"] == "reg" for x in m["handles"]) or h["kind"] == "pipe":
                 pass
+            if "alias" in h:
+                continue   # shares the file of another handle: shrunk together with it
             for s in content.shrink_spec(h["content"]):
-                hs = list(m["handles"])
-                hs[i] = dict(h, content=s)
+                hs = [dict(x, content=s) if (j == i or x.get("alias") == i) else x for j, x in enumerate(m["handles"])]
                 yield dict(m, handles=hs)
             if h["kind"] == "pipe":
-                hs = list(m["handles"])
-                hs[i] = dict(h, kind="reg")
+                hs = [dict(x, kind="reg") if (j == i or x.get("alias") == i) else x for j, x in enumerate(m["handles"])]
                 yield dict(m, handles=hs)
         for i, o in enumerate(m["ops"]):
             if o["op"] == "read" and o["n"] > 1:
